@@ -611,6 +611,17 @@ def noHeaderLoop (ft : FloatText) : List Bytes → List Bytes → List (Except F
 def readAllNoHeader (ft : FloatText) (body : Bytes) : List (Except Fault Record) :=
   noHeaderLoop ft ((readerLines body).map stripCR) []
 
+/-- `sam.NewReader` followed by `Read` until it fails or reports EOF.  `parseHeader` stands for
+`Header.UnmarshalText` (C07) as far as records need it: the references of the header text; `none` where it
+fails.  Result `none` = NewReader returns an error. -/
+def readFile (ft : FloatText) (parseHeader : Bytes → Option Header) (input : Bytes) :
+    Option (List (Except Fault Record)) :=
+  match splitHeader (input.length + 1) [] input with
+  | none => none
+  | some (hdr, body) =>
+    if hdr.isEmpty then some (readAllNoHeader ft body)
+    else (parseHeader hdr).map fun h => readAll ft h body
+
 /-! ### BAM view -/
 
 /-- a record as bam.Reader returns it: absent qualities are a run of 0xff of the sequence's length -/
